@@ -244,3 +244,36 @@ def _np_asarray(self, interp, x, dtype=None, **k):
 
 NumpyO.np_array = _np_array
 NumpyO.np_asarray = _np_asarray
+
+
+class _Linalg:
+    """np.linalg on object arrays of symbolic reals: norm is the Euclidean norm (sqrt of the sum of squares) along an axis;
+    inv is opaque (its result is unused where it occurs in the code under contract)"""
+
+    def sym_getattr(self, interp, name):
+        if name == "norm":
+            def norm(x, axis=None, **k):
+                x = _np.asarray(x, dtype=object)
+                if not _has_sym(x):
+                    return _np.linalg.norm(x.astype(float), axis=axis, **k)
+                sq = x * x
+                if axis is None:
+                    tot = sq.reshape(-1).sum()
+                    return npreal.r_sqrt(tot)
+                return _elementwise(lambda v: npreal.r_sqrt(v) if is_sym(v) else math.sqrt(v), sq.sum(axis=axis))
+            return norm
+        if name == "inv":
+            return lambda x: ("inverse-of", id(x))
+        return getattr(_np.linalg, name)
+
+
+_orig_getattr2 = NumpyO.sym_getattr
+
+
+def _getattr2(self, interp, name):
+    if name == "linalg":
+        return _Linalg()
+    return _orig_getattr2(self, interp, name)
+
+
+NumpyO.sym_getattr = _getattr2
